@@ -237,7 +237,7 @@ finally:
 '''
 
 
-def capture_corpus(ctx, names):
+def capture_corpus(ctx, names, extra_args=(), tag="corpus"):
     """Run Shroud on corpus entries in fresh processes with write_continue logged."""
     import corpus
     shim = os.path.join(ctx.bdir, "shim_wc.py")
@@ -249,11 +249,11 @@ def capture_corpus(ctx, names):
 
     def one(d):
         name, y, cmdline = d
-        od = os.path.join(ctx.bdir, "corpus", name)
+        od = os.path.join(ctx.bdir, tag, name)
         os.makedirs(od, exist_ok=True)
         lj = os.path.join(od, "wc.json")
         cmd = corpus.shroud_cmd(y, od, cmdline)
-        cmd = [cmd[0], shim, lj] + cmd[3:]
+        cmd = [cmd[0], shim, lj] + cmd[3:-1] + list(extra_args) + cmd[-1:]
         rc, out = vlib.sh(cmd, timeout=300)
         if not os.path.exists(lj):
             return name, od, None, out
@@ -352,6 +352,39 @@ def run(ctx):
                         if len(t) > 132 and not t.lstrip().startswith("!"):
                             f132.append((name, f, ln + 1, len(t)))
         ctx.traces += 1
+    # 5. each writer wraps at the limit documented for ITS language: runs with C_line_length and F_line_length set to different
+    #    values; the Fortran writer must use F_line_length, the C / Python / Lua writers C_line_length
+    limits = {"C_line_length": 100, "F_line_length": 60}
+    lim_args = []
+    for k, v in limits.items():
+        lim_args += ["--option", "%s=%d" % (k, v)]
+    for name, od, log, out in capture_corpus(ctx, {"tutorial", "strings"} if quick else {"tutorial", "strings", "classes", "vectors", "generic"},
+                                             extra_args=lim_args, tag="limits"):
+        if log is None:
+            ctx.broken.append(("correspondence", "limits-run-" + name, out[-1500:]))
+            continue
+        seen_cls = set()
+        for l in log:
+            cls = l[6]
+            want = limits["F_line_length"] if cls == "Wrapf" else limits["C_line_length"]
+            ctx.count(1, None)
+            if (cls, l[0]) in seen_cls:
+                continue
+            seen_cls.add((cls, l[0]))
+            ctx.count(0, ("limit", name, cls, l[0]))
+            ctx.hist("limit-run:" + cls)
+            if l[0] != want:
+                ctx.violation("failing-input", {"what": "the %s writer wraps at %d columns although the documented limit for its language is %d"
+                                                        % (cls, l[0], want),
+                                                "input": {"corpus": name, "options": limits, "writer": cls, "line": l[4][:200]}})
+        # and the written Fortran obeys F_line_length wherever a line had a break point
+        for l in log:
+            if l[6] == "Wrapf":
+                o = oracle_wc(limits["F_line_length"], l[1], l[2], l[3], l[4], l[5])
+                if o and l[4]:
+                    ctx.violation("failing-input", {"what": "Fortran output does not respect F_line_length=%d: %s" % (limits["F_line_length"], o),
+                                                    "input": {"corpus": name, "options": limits, "line": l[4][:200]}, "observed": l[5][:4]})
+                    break
     ctx.extra["corpus_logical_lines"] = ncorp
     ctx.extra["fortran_lines_over_132"] = f132[:5]
 
